@@ -21,6 +21,10 @@ package connlimiter
 //
 //@ ghost tok int
 //@ ghost mytok int
+// leftAccepting: whether the calling context's latest release of a slot left
+// the counter accepting (its own observation, like mytok).
+//@ ghost leftAccepting bool
+//@ import sync sync
 
 //@ func (*counter).increment
 //@   property C18
@@ -41,8 +45,9 @@ package connlimiter
 //@   property C18
 //@   held *
 //@   requires K(c) && c.current > 0
-//@   modifies c.current, c.isAccepting, tok, mytok
+//@   modifies c.current, c.isAccepting, tok, mytok, leftAccepting
 //@   ghostset tok = tok - 1
+//@   ghostset leftAccepting = c.isAccepting
 //@   ghostset mytok = mytok - 1
 //@   ensures  K(c) && c.current == old(c.current) - 1
 //@   ensures  c.isAccepting == (old(c.isAccepting) || c.current <= c.resume)
@@ -72,21 +77,27 @@ package connlimiter
 //@ func (*limitListener).decrement
 //@   property C18
 //@   requires LL(l) && mytok > 0
-//@   modifies l.isClosed, l.counter.*, tok, mytok
+//@   modifies l.isClosed, l.counter.*, tok, mytok, leftAccepting, signals[l.counterCond]
 //@   ensures  mytok == old(mytok) - 1
+// The safety shadow of "waiting accepts proceed": whenever a slot is given back
+// and the counter accepts afterwards, a waiting accept is woken - whether or
+// not the counter was accepting before (a waiter woken earlier may have left
+// it accepting while others still wait).
+//@   ensures  a-release-that-leaves-the-counter-accepting-wakes-a-waiting-accept: leftAccepting ==> signals[old(l.counterCond)] == old(signals[l.counterCond]) + 1
 
 //@ func (*limitListener).Accept
 //@   property C18
 //@   requires LL(l) && mytok >= 0
-//@   modifies l.isClosed, l.counter.*, tok, mytok
+//@   modifies l.isClosed, l.counter.*, tok, mytok, leftAccepting, signals[l.counterCond]
 //@   ensures  no-token-on-error: err != nil ==> mytok == old(mytok)
 //@   ensures  one-token-per-conn: err == nil ==> mytok == old(mytok) + 1 && conn != nil
 
 //@ func (*limitListener).Close
 //@   property C18
 //@   requires LL(l) && mytok >= 0
-//@   modifies l.isClosed, l.counter.*, tok
+//@   modifies l.isClosed, l.counter.*, tok, broadcasts[l.counterCond]
 //@   ensures  mytok == old(mytok)
+//@   ensures  closing-a-listener-wakes-all-its-waiters: err == nil ==> broadcasts[old(l.counterCond)] == old(broadcasts[l.counterCond]) + 1
 
 // The decrement field of a limitConn holds the bound method l.decrement of
 // the listener that created it (set once in Accept); connOwner names that
@@ -104,7 +115,7 @@ package connlimiter
 //@ func (*limitConn).Close
 //@   property C18
 //@   requires LC(c) && (!c.isClosed ==> mytok > 0)
-//@   modifies c.isClosed, connOwner[c].isClosed, connOwner[c].counter.*, tok, mytok, casWins
+//@   modifies c.isClosed, connOwner[c].isClosed, connOwner[c].counter.*, tok, mytok, casWins, leftAccepting, signals[connOwner[c].counterCond]
 //@   ensures  slot-released-only-by-the-winner-of-the-swap: mytok == old(mytok) - 1 ==> casWins == old(casWins) + 1
 //@   ensures  casWins == old(casWins) ==> mytok == old(mytok)
 //@   ensures  released-once: !old(c.isClosed) ==> c.isClosed && mytok == old(mytok) - 1
